@@ -292,7 +292,13 @@ def extChecks (line implLine : String) : Option String :=
             | _ => reqs
           let reqs := reqs ++ st.effs.map fun e => (e.kind, e.kind == 'n')
           let allGone := !reqs.isEmpty && reqs.all (·.2)
-          if allGone && tailTok "d" st.tail != some "1" then some "retaining-combinator-never-evicted"
+          if allGone && tailTok "d" st.tail != some "1" then
+            -- two known mechanisms, told apart by the construct the command uses: a request future polled once and then
+            -- moved to another task (`handoff`), or a waker-retaining combinator (stream after stream in a builder chain)
+            -- (any other command that fails the clause gets a key no known finding lists)
+            some (if (line.splitOn "(chain stream").length > 1 && (line.splitOn "(tstream").length > 1 then "retaining-combinator-never-evicted"
+                  else if (line.splitOn "(handoff ").length > 1 then "handed-off-request-strands-first-poller"
+                  else "all-requests-gone-but-not-done")
           else go steps' acts' reqs
         | _ :: _, [] => none
       go p.steps (none :: acts.map some) []
